@@ -565,8 +565,13 @@ async fn remote<P: Protocol>(
         Ok(l) => l,
         Err(e) => {
             error!(error=?e, "Remote link error");
-            // the link never started: nobody is going to wait for a decision on its will
-            will_handlers.lock().unwrap().remove(&client_id);
+            // the link never started: nobody is going to wait for a decision on its will.
+            // The entry is still ours as long as our sender is alive (a newer connection of
+            // this client id takes it out and puts its own in)
+            let mut will_handlers = will_handlers.lock().unwrap();
+            if will_rx.sender_count() > 0 {
+                will_handlers.remove(&client_id);
+            }
             return;
         }
     };
